@@ -454,10 +454,14 @@ impl CmXmlParser {
             "PluginNode"
         };
 
-        if let Some(defaults_node) = node
-            .descendants()
-            .find(|e| e.has_tag_name(dynamic_meta_tag))
-        {
+        // The trims of a shot are not the ones of its per-frame edits
+        if let Some(defaults_node) = node.descendants().find(|e| {
+            e.has_tag_name(dynamic_meta_tag)
+                && !e
+                    .ancestors()
+                    .take_while(|a| a != node)
+                    .any(|a| a.has_tag_name("Frame"))
+        }) {
             if self.is_cmv4() {
                 let level_nodes = defaults_node
                     .children()
